@@ -34,11 +34,28 @@ def _restructured(cd):
     return cd
 
 
+def _name_coincidence(rng, cd):
+    """a revision in which a name that is a primary input of cd is a multi-input GATE (fed by a fresh input and
+    another input): the name is shared but it is a startpoint of only one of the two circuits"""
+    ins = [r[0] for r in cd["nodes"] if r[1] == "input"]
+    if len(ins) < 2 or any(r[0] == "nx_in" for r in cd["nodes"]):
+        return None
+    x = rng.choice(ins)
+    y = rng.choice([i for i in ins if i != x])
+    nodes = [[r[0], rng.choice(["and", "or", "xor"]), r[2]] if r[0] == x else list(r) for r in cd["nodes"]] + [["nx_in", "input", False]]
+    edges = [list(e) for e in cd["edges"]] + [["nx_in", x], [y, x]]
+    return {"name": cd["name"], "nodes": nodes, "edges": edges, "bbs": {}}
+
+
 def _pairs(rng, cd):
     yield cd, None
     yield cd, cd
     yield cd, _mutant(rng, cd)
     yield cd, _restructured(cd)
+    nc = _name_coincidence(rng, cd)
+    if nc is not None:
+        yield cd, nc
+        yield nc, cd
 
 
 def _choices(rng, cd0, cd1):
